@@ -140,6 +140,8 @@ def run(P, R):
     # obligations as C15.R1)
     from .c15 import rule_ast_access
     rule_ast_access(P, R, r4)
+    from . import shared as _sh
+    _sh.process_of_namespec_tested(P, R, r4)
 
     # ---------------------------------------------------------------- R5
     r5 = R.rule('R5', 'dispatch totality', 'enum-dispatched constructors never yield None: create_strategy and '
